@@ -1108,9 +1108,11 @@ func (interp *Interpreter) cfg(root *node, sc *scope, importPath, pkgName string
 				n.typ = dest.typ
 				n.findex = dest.findex
 				n.level = dest.level
-			case isResultOf(n, sc):
+			case isResultOf(n, sc) && (isComparisonAction(n.action) || isInterface(n.typ) || !isInterface(sc.def.typ.ret[childPos(n)])):
 				// To avoid a copy in frame, if the result is to be returned, store it directly
-				// at the frame location reserved for output arguments.
+				// at the frame location reserved for output arguments. A shift or a remainder
+				// has the type of its first operand, whatever the type of the result is:
+				// it is not computed in place in an interface result.
 				n.findex = childPos(n)
 				if rt := sc.def.typ.ret[n.findex]; isComparisonAction(n.action) && isInterface(rt) {
 					// The boolean result of a comparison is stored as an interface value.
